@@ -20,6 +20,7 @@ RULE = ("stream 'roundtrip': plaintext lengths 0..64 exhaustively (thorough: 0..
         "model's unpad. stream 'shared': one cipher object used by 2-3 threads at once (cooperative scheduler, scheduling points at the cipher's source lines): "
         "each call must give the result it gives alone. distinct = distinct (stream, length, kind, key, position).")
 RULE += (' The per-kind entry points (encrypt_image / decrypt_audio / ...) are compared with the reference blob of their kind and fed blobs of another kind.')
+RULE += (" The reference implementation spells the four key-derivation labels itself.")
 ASSUMPTIONS = ["AES-256-CBC is a keyed bijection on whole blocks (cryptography / openssl agree on it)", "HMAC-SHA256 and HKDF are modelled as abstract functions; "
                "collision-freeness of the truncated MAC on the compared inputs is a named hypothesis of the tamper theorems, exercised here on real inputs",
                "openssl CLI + stdlib HKDF = the independent implementation of the WhatsApp media layout"]
@@ -30,7 +31,9 @@ KINDS = ["image", "audio", "video", "document"]
 def setup(chk):
     from yowsup.layers.protocol_media.mediacipher import MediaCipher
     chk.mc = MediaCipher()
-    chk.infos = {"image": MediaCipher.INFO_IMAGE, "audio": MediaCipher.INFO_AUDIO, "video": MediaCipher.INFO_VIDEO, "document": MediaCipher.INFO_DOCUM}
+    # the independent implementation spells WhatsApp's key-derivation labels itself (the same literals Props/C15.lean's C15_info_strings compares the
+    # regenerated ones with): a library that derives a kind's keys from another label produces blobs no other client can read
+    chk.infos = {"image": b"WhatsApp Image Keys", "audio": b"WhatsApp Audio Keys", "video": b"WhatsApp Video Keys", "document": b"WhatsApp Document Keys"}
 
 
 def cases(chk):
